@@ -250,6 +250,12 @@ def _child(plan, src, dest):
             report({"ev": "phase", "ph": "mirror", "r": ri})
             report.sync("mirror")
             if ri == 0 and plan.get("existing_first"):
+                # what a listing with the mirror's window and kinds selects right now (for a metadata channel that
+                # includes the file in force at starttime); start() must mirror all of it
+                lst = digital_rf.list_drf.lsdrf(src, starttime=mir.starttime, endtime=mir.endtime,
+                                                include_drf=plan["include_drf"], include_dmd=plan["include_dmd"],
+                                                include_drf_properties=False, include_dmd_properties=False)
+                report({"ev": "start_listing", "files": [os.path.relpath(p_, src) for p_ in lst]})
                 mir.start()
                 report({"ev": "existing_replayed"})
             for e in rnd["events"]:
@@ -363,6 +369,7 @@ def run_plan(prop, plan):
     replayed = set()
     expired_uncopied = set()
     expired_although_presented = set()
+    start_listed = set()    # what the listing selected when start() replayed the existing files
     given_to_copy = {}      # rel -> round in which the copy handler was last given an event for it
     modified_round = {}     # rel -> round after which the source file last changed
 
@@ -481,6 +488,8 @@ def run_plan(prop, plan):
                     elif e == "to_handler":
                         if ev["role"] == "copy":
                             given_to_copy[ev["p"]] = phase[1]
+                    elif e == "start_listing":
+                        start_listed.update(ev["files"])
                     elif e == "rf_fail":
                         rf_fail[0] = True
                     elif e == "existing_replayed":
@@ -597,6 +606,11 @@ def run_plan(prop, plan):
         for rel in versions:
             if selected(rel) and (rel in delivered or rel in replayed):
                 want.add(rel)
+        for rel in start_listed:
+            if (rel in src_final or rel in versions) and not os.path.basename(rel).startswith("tmp."):
+                if rel not in want:
+                    res.probe("start_listing_selects_file_outside_name_window")
+                want.add(rel)
         for rel in sorted(want):
             if rel in failed_publish:
                 continue  # its publication was made to fail; the no-loss invariant has been checked at every boundary
@@ -607,6 +621,11 @@ def run_plan(prop, plan):
                 continue
             sha = K.file_sha(dfiles[rel])
             exp = src_final.get(rel) or versions[rel][-1]
+            if rel in start_listed and not selected(rel) and sha in versions.get(rel, []):
+                # the forward-fill metadata file from before the window: mirrored by start() as it was then; later
+                # appends to it carry a name time outside the window and are filtered like any other event
+                res.probe("prewindow_metadata_file_mirrored_as_of_start")
+                continue
             if sha != exp:
                 viol("mirrored_content_differs", "%s in the destination differs from the (latest) source content%s" % (
                     rel, " - the metadata ringbuffer deleted it from the source before its last version was copied"
